@@ -23,12 +23,14 @@ type Op struct {
 	Key  string `json:"key,omitempty"`
 	Val  []byte `json:"val,omitempty"`
 	// Big, when positive, makes the value the first Big bytes of one shared
-	// zeroed 1 GiB buffer (the cache does not copy values, so accounted sizes
+	// zeroed buffer of bigBufLen bytes, never touched (the cache does not copy values, so accounted sizes
 	// beyond 2^32 are reachable without that much memory).
 	Big int `json:"big,omitempty"`
 }
 
-const bigBufLen = 1 << 30
+// bigBufLen is 1 GiB; huge_test.go (64-bit platforms only) raises it above
+// 4 GiB so that a single element can be 2^32 bytes or more.
+var bigBufLen = 1 << 30
 
 var (
 	bigOnce sync.Once
